@@ -7,15 +7,124 @@ import (
 	"io"
 	"os"
 	"sort"
+
+	"flamingo.me/pugtemplate/pugjs"
 )
 
 // C17: RenderPartials vs Render of each partial alone.
+//
+// Two engines over the same template tree:
+//   - the engine UNDER TEST receives the history `prep` (possibly empty: a fresh engine on which
+//     neither LoadTemplates nor Render has run) and then the RenderPartials call that is judged;
+//   - the REFERENCE engine is a separate, preloaded, non-debug engine; every name of `universe` is
+//     rendered on it alone by Engine.Render.
+// Every call (reference renders, prep operations, the judged call) gets its own freshly built copy of
+// the data, as ordinary Go values (maps / slices / strings / numbers), so "the same data" means the
+// same value, never the same object.
 type c17Case struct {
 	Files    map[string]string `json:"files"` // path below template/page (without .ast.json) -> AST json
 	Template string            `json:"template"`
 	Partials []string          `json:"partials"`
 	Universe []string          `json:"universe"` // partial names to render alone
-	Data     map[string]string `json:"data"`
+	Data     json.RawMessage   `json:"data"`     // c17Val (must be a map at the top)
+	Prep     []c17Op           `json:"prep"`     // history of the engine under test before the judged call
+	Debug    bool              `json:"debug"`    // engine under test runs in debug mode (compiles on demand)
+	Limit    int               `json:"limit"`    // rate limit of the engine under test (0 = off)
+}
+
+// c17Op is one earlier call on the engine under test.
+//   load              LoadTemplates("")
+//   render  name      Engine.Render(name) (full template name), fresh data
+//   partials names    Engine.RenderPartials(template, names), fresh data, result drained
+// An earlier call may come with its own data (another request), else it gets a copy of the case's data.
+type c17Op struct {
+	Op    string   `json:"op"`
+	Name  string   `json:"name,omitempty"`  // hex
+	Names []string `json:"names,omitempty"` // hex
+	// Data, when present, is the data of this earlier call (another request's data); otherwise the case's data
+	Data json.RawMessage `json:"data,omitempty"`
+}
+
+// c17Val: typed data.  t = nil | bool | int | str | arr | map | strs ([]string) | strmap (map[string]string)
+type c17Val struct {
+	T string          `json:"t"`
+	V json.RawMessage `json:"v"`
+}
+
+func c17Build(raw json.RawMessage) (interface{}, error) {
+	var tv c17Val
+	if err := json.Unmarshal(raw, &tv); err != nil {
+		return nil, err
+	}
+	switch tv.T {
+	case "nil":
+		return nil, nil
+	case "bool":
+		var b bool
+		err := json.Unmarshal(tv.V, &b)
+		return b, err
+	case "int":
+		var n int64
+		err := json.Unmarshal(tv.V, &n)
+		return int(n), err
+	case "str":
+		var s string
+		err := json.Unmarshal(tv.V, &s)
+		return unhx(s), err
+	case "strs":
+		var l []string
+		if err := json.Unmarshal(tv.V, &l); err != nil {
+			return nil, err
+		}
+		res := make([]string, len(l))
+		for i, s := range l {
+			res[i] = unhx(s)
+		}
+		return res, nil
+	case "arr":
+		var l []json.RawMessage
+		if err := json.Unmarshal(tv.V, &l); err != nil {
+			return nil, err
+		}
+		res := make([]interface{}, len(l))
+		for i, x := range l {
+			v, err := c17Build(x)
+			if err != nil {
+				return nil, err
+			}
+			res[i] = v
+		}
+		return res, nil
+	case "strmap":
+		var l [][2]string
+		if err := json.Unmarshal(tv.V, &l); err != nil {
+			return nil, err
+		}
+		res := make(map[string]string, len(l))
+		for _, kv := range l {
+			res[unhx(kv[0])] = unhx(kv[1])
+		}
+		return res, nil
+	case "map":
+		var l [][2]json.RawMessage
+		if err := json.Unmarshal(tv.V, &l); err != nil {
+			return nil, err
+		}
+		res := make(map[string]interface{}, len(l))
+		for _, kv := range l {
+			var k string
+			if err := json.Unmarshal(kv[0], &k); err != nil {
+				return nil, err
+			}
+			v, err := c17Build(kv[1])
+			if err != nil {
+				return nil, err
+			}
+			res[unhx(k)] = v
+		}
+		return res, nil
+	}
+	return nil, fmt.Errorf("bad data tag %q", tv.T)
 }
 
 type c17Entry struct {
@@ -24,7 +133,8 @@ type c17Entry struct {
 }
 
 type c17Obs struct {
-	Alone   []c17AloneObs `json:"alone"`
+	Alone   []c17AloneObs `json:"alone"`   // reference engine
+	Prep    []string      `json:"prep"`    // outcome class of every prep operation (diagnostic)
 	Class   string        `json:"class"`   // ok | error | exec_panic
 	NilMap  bool          `json:"nil_map"` // result map is nil
 	Entries []c17Entry    `json:"entries"`
@@ -53,6 +163,41 @@ func init() {
 	}
 }
 
+// c17Partials calls RenderPartials, recovers panics and drains the readers (sorted by key).
+func c17Partials(e *pugjs.Engine, ctx context.Context, tname string, data interface{}, ps []string) (class string, nilMap bool, entries []c17Entry) {
+	nilMap = true
+	defer func() {
+		if r := recover(); r != nil {
+			class, nilMap, entries = clsPanic, true, nil
+		}
+	}()
+	m, err := e.RenderPartials(ctx, tname, data, ps)
+	nilMap = m == nil
+	if err != nil {
+		class = clsErr
+	} else {
+		class = clsOK
+	}
+	keys := make([]string, 0, len(m))
+	for k := range m {
+		keys = append(keys, k)
+	}
+	sort.Strings(keys)
+	for _, k := range keys {
+		b, _ := io.ReadAll(m[k])
+		entries = append(entries, c17Entry{Key: hx(k), Out: hx(string(b))})
+	}
+	return class, nilMap, entries
+}
+
+func unhxAll(l []string) []string {
+	res := make([]string, len(l))
+	for i, p := range l {
+		res[i] = unhx(p)
+	}
+	return res
+}
+
 func runC17(c c17Case) (obs c17Obs, err error) {
 	dir, err := os.MkdirTemp("", "pv17")
 	if err != nil {
@@ -67,46 +212,55 @@ func runC17(c c17Case) (obs c17Obs, err error) {
 		return obs, err
 	}
 	os.MkdirAll(dir+"/template/page", 0o755)
-	data := map[string]interface{}{}
-	for k, v := range c.Data {
-		data[k] = unhx(v)
+	if _, err := c17Build(c.Data); err != nil {
+		return obs, err
 	}
-	e := newEngine(dir, false, 0, nil)
-	if cls, msg := safeLoad(e, ""); cls != clsOK {
-		return obs, fmt.Errorf("load failed: %s %s", cls, msg)
+	fresh := func() interface{} { // a new copy of the data for every call
+		d, _ := c17Build(c.Data)
+		return d
 	}
 	ctx := context.Background()
 	tname := unhx(c.Template)
+
+	// reference: a separate preloaded engine (same debug mode: debug changes how templates are compiled),
+	// every name alone, fresh data each time
+	ref := newEngine(dir, c.Debug, 0, nil)
+	if cls, msg := safeLoad(ref, ""); cls != clsOK {
+		return obs, fmt.Errorf("load failed: %s %s", cls, msg)
+	}
 	for _, u := range c.Universe {
-		r := safeRender(e, ctx, tname+".partial/"+unhx(u), data)
+		r := safeRender(ref, ctx, tname+".partial/"+unhx(u), fresh())
 		obs.Alone = append(obs.Alone, c17AloneObs{Name: u, Res: r})
 	}
-	ps := make([]string, len(c.Partials))
-	for i, p := range c.Partials {
-		ps[i] = unhx(p)
-	}
-	func() {
-		defer func() {
-			if r := recover(); r != nil {
-				obs.Class = clsPanic
+
+	// engine under test: its history, then the judged call
+	e := newEngine(dir, c.Debug, c.Limit, nil)
+	obs.Prep = []string{}
+	for _, op := range c.Prep {
+		fresh := fresh
+		if len(op.Data) > 0 {
+			raw := op.Data
+			if _, err := c17Build(raw); err != nil {
+				return obs, err
 			}
-		}()
-		m, err := e.RenderPartials(ctx, tname, data, ps)
-		obs.NilMap = m == nil
-		if err != nil {
-			obs.Class = clsErr
-		} else {
-			obs.Class = clsOK
+			fresh = func() interface{} {
+				d, _ := c17Build(raw)
+				return d
+			}
 		}
-		keys := make([]string, 0, len(m))
-		for k := range m {
-			keys = append(keys, k)
+		switch op.Op {
+		case "load":
+			cls, _ := safeLoad(e, "")
+			obs.Prep = append(obs.Prep, cls)
+		case "render":
+			obs.Prep = append(obs.Prep, safeRender(e, ctx, unhx(op.Name), fresh()).Class)
+		case "partials":
+			cls, _, _ := c17Partials(e, ctx, tname, fresh(), unhxAll(op.Names))
+			obs.Prep = append(obs.Prep, cls)
+		default:
+			return obs, fmt.Errorf("bad prep op %q", op.Op)
 		}
-		sort.Strings(keys)
-		for _, k := range keys {
-			b, _ := io.ReadAll(m[k])
-			obs.Entries = append(obs.Entries, c17Entry{Key: hx(k), Out: hx(string(b))})
-		}
-	}()
+	}
+	obs.Class, obs.NilMap, obs.Entries = c17Partials(e, ctx, tname, fresh(), unhxAll(c.Partials))
 	return obs, nil
 }
